@@ -78,7 +78,8 @@ def impl_inspect(cfg, o, rng):
                 tuple((lambda r: (0, world.abs_key(r[1])) if r[0] == 0 else r)(attempt(lambda i=i: sp.entry(i)))
                       for i in idx),
                 world.abs_spec(sp.one_level()) if not sp.is_leaf() else world.abs_spec(sp),
-                1)
+                1,
+                (0, pths[1]) if pths[0] == 0 else pths)     # again, for the array-level model of Paths
 
 
 def impl_pair(cfg1, o1, cfg2, o2, rng, hook=None):
